@@ -113,6 +113,18 @@ pub fn probe(ctx: &Ctx, needle: &[u8], hay: &[u8], table: &[u8; 256], calls: &mu
         let c = a.clone();
         c.find(hay)
     });
+    // finders that own their needle: the conversion itself may allocate (it is made with the probe
+    // disarmed), nothing that is done with the owned finder afterwards may - in particular as_ref()
+    // and the iterators, which re-borrow the owned needle
+    let fo = Finder::new(needle).into_owned();
+    let ro = FinderRev::new(needle).into_owned();
+    chk!("owned Finder::find", fo.find(hay));
+    chk!("owned FinderRev::rfind", ro.rfind(hay));
+    chk!("owned Finder::find_iter (complete traversal)", fo.find_iter(hay).count());
+    chk!("owned FinderRev::rfind_iter (complete traversal)", ro.rfind_iter(hay).count());
+    chk!("owned Finder::as_ref().find", fo.as_ref().find(hay));
+    chk!("owned FinderRev::as_ref().rfind", ro.as_ref().rfind(hay));
+    chk!("owned Finder::needle / FinderRev::needle", fo.needle().len() + ro.needle().len());
     let n1 = needle.first().copied().unwrap_or(b'a');
     let n2 = needle.get(1).copied().unwrap_or(b'b');
     let n3 = needle.last().copied().unwrap_or(b'c');
